@@ -180,9 +180,16 @@ func firstLine(s string) string {
 }
 
 // goField is what the Lean driver compares: the output on success, otherwise the status
+// lastFailure: the status text of the most recent failed run (error message, panic value), kept for the case's errnote
+var lastFailure string
+
 func goField(r result) string {
 	if r.status == "ok" {
 		return r.out
+	}
+	lastFailure = r.status
+	if len(lastFailure) > 300 {
+		lastFailure = lastFailure[:300]
 	}
 	if os.Getenv("GFH_DEBUG") != "" {
 		fmt.Fprintln(os.Stderr, "status:", r.status)
